@@ -47,6 +47,7 @@ def outJson : Out → Json
   | .add .wait => Json.str "wait"
   | .write .ok => Json.str "ok"
   | .write .exists => Json.str "exists"
+  | .write .invalid => Json.str "invalid"
   | .close .ok => Json.str "ok"
   | .close .keyError => Json.str "KeyError"
   | .close .valueError => Json.str "ValueError"
@@ -74,7 +75,19 @@ def parseOp (j : Json) : Option Op :=
   | "cb" => some (.cb (getNat j "id"))
   | _ => none
 
-def c08Step (s : St) (j : Json) : St × Json :=
+def clientOutStr : ClientOut → String
+  | .granted _ => "granted" | .timeout => "timeout" | .conflict => "conflict" | .capacityExceeded => "capacity exceeded"
+  | .keyError => "KeyError" | .noUuid => "RuntimeError" | .outOfSchedule => "outOfSchedule"
+
+def parseAttempt (j : Json) : Attempt :=
+  { env := (getArr j "env").filterMap parseOp, t := getNat j "t", cands := (getArr j "cands").map asStr }
+
+/-- the driver's state: the model state and the state saved by the last `clientBegin` -/
+structure DSt where
+  s : St
+  saved : St
+
+def c08Step' (s : St) (j : Json) : St × Json :=
   if getStr j "op" == "init" then
     let s' := init (getNat j "cap") (getNat j "staleCreate") (getNat j "staleRead")
     (s', Json.mkObj [("out", Json.str "init"), ("st", stJson s')])
@@ -90,4 +103,24 @@ def c08Step (s : St) (j : Json) : St × Json :=
       let (s', o) := step s op
       (s', Json.mkObj [("out", outJson o), ("st", stJson s')])
 
-def main : IO Unit := runLoop (init 0 0 0) c08Step
+def budgetOf (j : Json) : Nat :=
+  match j.getObjValAs? Nat "budget" with
+  | .ok n => n
+  | _ => defaultBudgetMs
+
+def c08Step (d : DSt) (j : Json) : DSt × Json :=
+  if getStr j "op" == "clientBegin" then
+    ({ d with saved := d.s }, Json.mkObj [("out", Json.str "begin")])
+  else if getStr j "op" == "clientEnd" then
+    let sched := (getArr j "sched").map parseAttempt
+    let (s', o, n) :=
+      if getStr j "kind" == "alloc" then clientAlloc d.saved (getStr j "k") (getNat j "size") (getStr j "deser") (budgetOf j) sched
+      else clientGet d.saved (getStr j "k") (budgetOf j) sched
+    let s'' := run s' ((getArr j "tail").filterMap parseOp)
+    let same := (stJson s'').compress == (stJson d.s).compress
+    (d, Json.mkObj [("out", Json.mkObj [("res", Json.str (clientOutStr o)), ("attempts", toJson n), ("same", Json.bool same)])])
+  else
+    let (s', o) := c08Step' d.s j
+    ({ d with s := s' }, o)
+
+def main : IO Unit := runLoop ({ s := init 0 0 0, saved := init 0 0 0 } : DSt) c08Step
